@@ -59,8 +59,11 @@ def cases(tier):
     pool = [(1.0, 10.0), (2.0, 20.0), (3.0, 35.0), (4.5, -2.5)]
     for n in (1, 2, 3, 4):
         for rows in itertools.permutations(range(4), n):
-            for variant in range(10):
+            for variant in range(11):          # (variant 10: a header line that the caller has read before handing the file object over)
                 out.append(dict(kind='reader', rows=list(rows), variant=variant))
+    # files larger than any read-ahead buffer: 60 000 and 200 000 rows (1.7 MB, 5.9 MB)
+    for nrows in (60000, 200000):
+        out.append(dict(kind='reader-big', nrows=nrows))
     lows = [-2.0, 0.0, 0.1, 1.0, 7.3]
     spans = [0.5, 1.0, 2.5, 9.9, 30.0]
     for lo in lows:
@@ -163,10 +166,12 @@ SPELL = {8: ['.5 -.25', '1.5 +.125', '2. 3.', '2.75e0 -5E-1'], 9: ['+.5 -2.5e-1'
 
 
 def pool_of(variant):
-    return POOL2 if variant >= 8 else POOL
+    return POOL2 if variant in (8, 9) else POOL
 
 
 def reader_text(rows, variant):
+    if variant == 10:
+        return reader_text(rows, 0)
     if variant >= 8:
         return '\n'.join(SPELL[variant][k] for k in rows) + '\n'
     ls = []
@@ -202,7 +207,13 @@ def run_reader(case):
     from atsim.potentials import TableReader
     viol = []
     text = reader_text(case['rows'], case['variant'])
-    t = TableReader(io.StringIO(text, newline=''))
+    if case['variant'] == 10:
+        # the file starts with a header line ("npoints  spacing") that the caller consumes; the reader gets the file object positioned after it
+        fobj = io.StringIO('%d 0.25\n' % len(case['rows']) + text, newline='')
+        fobj.readline()
+        t = TableReader(fobj)
+    else:
+        t = TableReader(io.StringIO(text, newline=''))
     data = sorted(pool_of(case['variant'])[k] for k in case['rows'])
     n = 0
     for xv, yv in data:
@@ -234,6 +245,25 @@ def run_reader(case):
                 V(viol, 'reader-depends-on-lookup-order', 'file %r: f(%r) = %r in an ascending pass, %r when looked up after other separations' % (text, q, first.get(q, 0.0), t(q)))
                 return viol, n
     return viol, n
+
+
+def run_reader_big(case):
+    from atsim.potentials import TableReader
+    n = case['nrows']
+    f = lambda x: math.sin(0.37 * x) + 0.01 * x     # noqa
+    xs = [0.001 * i for i in range(n)]
+    text = ''.join('%.6f %.12f\n' % (x, f(x)) for x in xs)
+    t = TableReader(io.StringIO(text))
+    viol = []
+    k = 0
+    for i in list(range(0, n, 997)) + [n - 1, n - 2, n // 2]:
+        k += 1
+        want = float('%.12f' % f(xs[i]))
+        got = t(float('%.6f' % xs[i]))
+        if abs(got - want) > 1e-9:
+            V(viol, 'reader-data-point', '%d-row file (%d bytes): f(%r) = %r, tabulated %r' % (n, len(text), xs[i], got, want))
+            break
+    return viol, k
 
 
 # ----------------------------------------------------------------------------------------------------- plot
@@ -301,6 +331,8 @@ def run_case(case):
         viol, n = run_table(case)
     elif case['kind'] == 'reader':
         viol, n = run_reader(case)
+    elif case['kind'] == 'reader-big':
+        viol, n = run_reader_big(case)
     else:
         viol, n = run_plot(case)
     return dict(outcome='ok:%s' % case['kind'] if not viol else 'violation', nontrivial=True, evals=max(1, n), violations=viol)
